@@ -30,6 +30,10 @@ Bounded (kernel evaluation of a complete finite scope, labelled as such):
   all masks with `rows, cols ≤ 3`, `rows·cols ≤ 6` in both modes
   (`c36_contours_bounded_small`, in `Props/C36Bounded`; all 3×3 masks were also checked this
   way once but take > 5 min of kernel time and are left to the exhaustive correspondence run).
+* **S5a** scan-loop clause of "every component has an outer contour": an unlabelled foreground
+  pixel with background to its left starts a contour whose first point it is
+  (`c36_visit_starts_contour`); the component-level statement is left `_partial` (see the comment
+  at the end of this file).
 Not proved in general: termination of border following and adjacency to the background for
 arbitrary masks (bounded only), "every component has an outer contour", the minor-axis bound of
 Bresenham, `FillIter` (T3) — these are covered by the correspondence/oracle runs only.
@@ -164,5 +168,50 @@ theorem c36_contour_points_foreground (rows cols : Nat) (mask : List Bool) (oute
 not trivial: the mask has background pixels). -/
 example : findContours 1 4 [true, false, true, true] false = .ok [[(0, 0)], [(0, 2), (0, 3)]] := by
   decide +kernel
+
+/-! ## S5 "every component has an outer contour": the scan-loop clause -/
+
+/-- **C36.S5a** (scan-loop clause of "every component has an outer contour") In List mode, when
+the raster scan reaches an unlabelled foreground pixel `p` (working value 1) whose left
+neighbour is background, `visit` starts a border there: if it returns, exactly one contour is
+added and its first point is `p` (in image coordinates). -/
+theorem c36_visit_starts_contour (W fuel : Nat) (s s' : ScanState) (p : Pt)
+    (hcur : getM s.m W p = 1) (hleft : getM s.m W (p.1, p.2 - 1) = 0)
+    (h : visit W fuel false s p = .ok s') :
+    ∃ c, s'.contours = c :: s.contours ∧ c.head? = some (p.1 - 1, p.2 - 1) := by
+  unfold visit at h
+  simp only at h
+  rw [if_neg (by omega)] at h
+  have hsn : startNeighbor s.m W false s.lastNonzero p = some (p.1, p.2 - 1) := by
+    simp [startNeighbor, hleft, hcur]
+  rw [hsn] at h
+  simp only at h
+  split at h
+  · cases h; exact ⟨_, rfl, rfl⟩
+  · split at h
+    · rename_i m' border hf
+      cases h
+      refine ⟨_, rfl, ?_⟩
+      have := follow_first W p _ fuel s.m _ m' border (markStep_pushes hcur) hf
+      rw [List.head?_map, this]; rfl
+    · cases h
+    · cases h
+
+
+/-- The hypotheses are satisfiable: the single foreground pixel of a 1×1 mask. -/
+example : getM (padMask 1 1 [true]) 3 (1, 1) = 1 ∧ getM (padMask 1 1 [true]) 3 (1, 0) = 0 := by
+  decide
+
+/-
+`c36_component_has_outer_contour_partial` — what is missing for the component-level statement
+"in List mode every 8-connected foreground component has a contour starting at its first pixel
+in raster order": (a) when the scan reaches that pixel it is still unlabelled (working value 1):
+border following only relabels pixels 8-connected to its start pixel, and earlier starts belong
+to other components — needs a connectivity argument over the border-following path; (b) its
+left neighbour is background (else the left neighbour would be an earlier pixel of the same
+component) — immediate from the definition of "first in raster order"; (c) `follow` returns
+(termination), proved only for the bounded scope.  (a)–(c) are exercised by the harness oracle
+`component … has no outer contour` on every List-mode case (exhaustive ≤ 4×4 / 4×5).
+-/
 
 end RtenVerif.Contours
